@@ -237,6 +237,14 @@ let do_elab rest =
   print_endline (Printf.sprintf "elab %s :: ok=%d %s" cid (if x_sx_ok t then 1 else 0)
                    (match x_elab t with Some e -> sexp_of_expr e | None -> "NONE"))
 
+(* ruletype <id> <tree length> *)
+let do_ruletype rest =
+  match String.split_on_char ' ' rest with
+  | [cid; n] ->
+    let t = match x_peg_rule_type (z_of_int (ios n)) with U8 -> "uint8" | U16 -> "uint16" | U32 -> "uint32" | U64 -> "uint64" in
+    print_endline (Printf.sprintf "ruletype %s :: %s" cid t)
+  | _ -> failwith "ruletype"
+
 (* opt <gid> : the model's -switch pass applied to a stored grammar *)
 let do_opt rest =
   let gid = String.trim rest in
@@ -295,6 +303,7 @@ let () =
            | "diag" -> do_diag rest
            | "opt" -> do_opt rest
            | "elab" -> do_elab rest
+           | "ruletype" -> do_ruletype rest
            | _ -> print_endline ("ERR unknown command " ^ cmd))
         with
         | Stack_overflow -> print_endline ("ERR stack overflow: " ^ (String.sub line 0 (min 60 (String.length line))))
